@@ -3,6 +3,7 @@ import warnings
 import numpy as np
 from scipy.spatial.distance import cdist
 import krige_cases as kc
+import gridtie
 from proto import fbits, unbits, run_driver
 
 KERNEL_FILES = ["krige/krigesum.pyx"]
@@ -99,6 +100,19 @@ def _correspondence(ctx, on_data=False):
                         trend=fbits(kc.eval_spec(cfg["trend"], cfg["pos"], sc)), **kc.norm_par(cfg["norm"])))
         var_same = (not isinstance(out, tuple)) or np.array_equal(out[1], out_post[1])
         meta.append(("POST", (fpost, var_same), cfg, "post/" + mkey))
+        # 1c. get_mean(post_process=False) = cond . M . e_n (model getMeanUnb; theorem get_mean_eq_only_mean) and the
+        #     only_mean field of the call (constant-mean shortcut) on ordinary systems without drifts
+        if kr.unbiased and kr.drift_no == 0:
+            gm = kr.get_mean(post_process=False)
+            tr0 = kc.eval_spec(cfg["trend"], cfg["cond_pos"], sc)
+            nz0 = kc.make_normalizer(cfg["norm"])
+            with warnings.catch_warnings():
+                warnings.simplefilter("ignore")
+                vn0 = (cfg["cond_val"] - tr0) if nz0 is None else np.asarray(nz0.normalize(cfg["cond_val"] - tr0), dtype=float)
+            ops.append(dict(op="krige_mean", **L, M=fbits(kr._krige_mat), valn=fbits(vn0),
+                            mean=fbits(kc.eval_spec(cfg["mean"], cfg["cond_pos"], sc))))
+            meta.append(("MEAN", (gm, raw if only_mean else None, np.abs(kr._krige_cond) @ np.abs(kr._krige_mat[:, kr.cond_no])),
+                         cfg, "get_mean/" + cfg["variant"]))
         if only_mean and kr.drift_no == 0:
             continue   # constant-mean shortcut: no kernel call
         # 2. right-hand sides
@@ -157,6 +171,15 @@ def _correspondence(ctx, on_data=False):
             lean = unbits(r)
             ok = close_libm(cfg["norm"], lean, real[0]) and real[1]
             real = real[0]
+        elif kind == "MEAN":
+            gm, om_field, mag = real
+            lean = unbits([r])[0]
+            # einsum's summation order is not the model's: compare within rounding of the sum of magnitudes
+            ok = gm is not None and (abs(lean - gm) <= 1e-12 * (1 + mag) or (np.isnan(lean) and np.isnan(gm)))
+            # the only_mean call returns get_mean at every target, bit-for-bit (the shortcut)
+            ok = ok and (om_field is None or np.array_equal(om_field, np.full_like(om_field, gm), equal_nan=True))
+            real = [gm]
+            lean = [lean]
         else:
             out, has_var, cond_real = real
             f, v, f2, cond = (unbits(x) for x in r)
@@ -169,7 +192,8 @@ def _correspondence(ctx, on_data=False):
         distinct.add((kind, key))
         if not ok:
             what = {"PREP": "kriging PREP: prepared conditions normalize(cond_val - trend) - mean differ from the model",
-                    "POST": "kriging POST: post-processed field differs from trend + denormalize(mean + raw) of the model"}.get(
+                    "POST": "kriging POST: post-processed field differs from trend + denormalize(mean + raw) of the model",
+                    "MEAN": "kriging MEAN: get_mean(post_process=False) differs from the model's cond . M . e_n (or the only_mean field is not get_mean)"}.get(
                         kind, f"kriging {kind}: model differs from implementation")
             dis.append({"what": what, "variant": cfg["variant"], "key": key,
                         "real": np.asarray(real[0] if kind == "CALL" else real, dtype=float).tolist() if kind != "CALL" else [np.asarray(x).tolist() for x in np.atleast_1d(real[0])],
@@ -180,7 +204,12 @@ def _correspondence(ctx, on_data=False):
     distinct |= hist["distinct"]
     for k, v in hist["distribution"].items():
         dist[k] = dist.get(k, 0) + v
-    return {"evaluations": len(ops) + hist["evaluations"], "distinct_nontrivial": len(distinct),
+    # generate_grid / C-order reshape vs Model/Grid.lean (structured_eq_unstructured), exact
+    grid = gridtie.grid_correspondence(ctx)
+    dis = grid["disagreements"][:4] + dis
+    distinct |= {("GRID", i) for i in range(grid["distinct"])}
+    dist["grid:evaluations"] = grid["evaluations"]
+    return {"evaluations": len(ops) + hist["evaluations"] + grid["evaluations"], "distinct_nontrivial": len(distinct),
             "rule": "random kriging problems (5 variants + the generic Krige class, dim 1-3, lat-lon, time, polynomial and user drifts, "
                     "external drifts, measurement errors, exact flag, chunk sizes, identity and six non-identity normalizers combined with "
                     "constant / callable means and trends); the assembled matrix (captured through a callable pseudo_inv_type), the "
@@ -188,7 +217,9 @@ def _correspondence(ctx, on_data=False):
                     "bit-for-bit with the Lean model; the prepared conditions and the post-processed field are recomputed by the "
                     "model from raw values / trend / mean / normaliser parameters (1e-12 relative); histories of model edits, "
                     "mean/normalizer/trend re-assignments, set_condition forms and calls on one object are compared with freshly "
-                    "constructed objects wherever the Lean protocol model says the two coincide (bit-for-bit); "
+                    "constructed objects wherever the Lean protocol model says the two coincide (bit-for-bit); get_mean(post_process=False) "
+                    "vs the model's cond.M.e_n (1e-12 of the sum of magnitudes; einsum order) and only_mean field == get_mean (exact); "
+                    "generate_grid + C-order index decoding vs Model/Grid.lean (exact, gridtie); "
                     "distinct = distinct (stage, variant/layout/options | normalizer/mean/trend kinds | history op pattern)",
             "samples": samples, "disagreements": dis[:8], "distribution": dist}
 
